@@ -46,6 +46,11 @@ class GotranPythonCodePrinter(PythonCodePrinter):
     def _print_Float(self, flt):
         return self._print(str(float(flt)))
 
+    def _print_Mod(self, expr):
+        # ``%`` binds as tightly as ``*`` in Python, so a bare ``a % b`` inside a
+        # product (e.g. ``2*a % b``) would change meaning
+        return f"({super()._print_Mod(expr)})"
+
     def _print_Piecewise(self, expr):
         result = []
 
